@@ -239,5 +239,43 @@ func positiveControls(verifDir string) map[string]int {
 	for _, fn := range fx {
 		ForEachInstrAll(fn, out)
 	}
+	// map-iteration-order analysis (C15.5): every OrderSensitive* fixture reported, every
+	// OrderInsensitive* fixture accepted
+	sens, sensHit, ins, insOK := 0, 0, 0, 0
+	pp := &Prog{}
+	for _, fn := range fx {
+		name := fn.Name()
+		isSens := strings.HasPrefix(name, "OrderSensitive")
+		isIns := strings.HasPrefix(name, "OrderInsensitive")
+		if !isSens && !isIns {
+			continue
+		}
+		flagged := false
+		loops := mapLoops(fn)
+		for _, l := range loops {
+			if is, _ := pp.analyseMapLoop(l); len(is) > 0 {
+				flagged = true
+			}
+		}
+		if isSens {
+			sens++
+			if flagged {
+				sensHit++
+			}
+		} else {
+			ins++
+			if !flagged && len(loops) > 0 {
+				insOK++
+			}
+		}
+	}
+	out["map-loop-order-dependent-reported"] = 0
+	if sens > 0 && sens == sensHit {
+		out["map-loop-order-dependent-reported"] = sens
+	}
+	out["map-loop-commuting-accepted"] = 0
+	if ins > 0 && ins == insOK {
+		out["map-loop-commuting-accepted"] = ins
+	}
 	return out
 }
